@@ -77,6 +77,12 @@ def torn_start_scripts(g):
     return [("start-w%d" % j, ["crash %d" % (2 * g.B + j), start, "reboot", "fb", "recover", "drop", start, "drop", "fb", "hdrs"]) for j in range(1, 8)]
 
 
+def faulted_start_scripts(g):
+    """one device operation of start_update fails once (k = 0 .. N+1: the header reads of the scan and the first erases)"""
+    start = "start %d %d" % (SZ, CNT)
+    return [("start-f%d" % k, ["fail %d" % k, start, "drop", "fb", "hdrs"]) for k in range(g.ns + 2)]
+
+
 def op_scripts(g):
     B = g.B
     start = "start %d %d" % (SZ, CNT)
@@ -133,7 +139,7 @@ def in_progress(sl):
 def explore(chk, ns, max_states, variant="matrix", with_model=True, budget_s=600, stop_keys=None, torn_start=False):
     g = Geo(ns)
     ops = op_scripts(g)
-    tops = torn_start_scripts(g) if torn_start else []
+    tops = (torn_start_scripts(g) + faulted_start_scripts(g)) if torn_start else []
     init = (tuple([None] * ns), (None, None, (), frozenset(), None))
     seen = {init}
     frontier = [init]
@@ -228,6 +234,15 @@ def explore(chk, ns, max_states, variant="matrix", with_model=True, budget_s=600
                         bad("c05", "power lost inside start_update (%s): the interrupted start, the recovery or the next start erases / programs slot %d which holds the most recently confirmed image (headers %s)" % (name, fb, sl), name)
                     elif not toks[6][0].startswith("ok"):
                         bad("c05", "after a power loss inside start_update (%s) the next start fails: %s (headers %s)" % (name, toks[6][0], sl), name)
+            # ---- a transient device failure inside start (e.g. while the headers are scanned) must not cost the fallback image
+            for name in [n_ for n_ in res if n_.startswith("start-f")]:
+                if fb is None:
+                    continue
+                toks = res[name][0]        # [fail, start, drop, fb, hdrs]
+                if fb in slots_touched(g, [toks[1]]):
+                    bad("c05", "device operation %s of start_update fails once: the call erases / programs slot %d which holds the most recently confirmed image (headers %s)" % (name[7:], fb, sl), name)
+                elif toks[3][0] != "some:%d" % fb:
+                    bad("c05", "device operation %s of start_update fails once: fallback_firmware = %s afterwards, the most recently confirmed image is in slot %d (headers %s)" % (name[7:], toks[3][0], fb, sl), name)
             # ---- recovery
             toks = res["recover"][0]
             r = toks[0][0]
